@@ -368,7 +368,26 @@ class Function:
             """variables / members mentioned in a written position inside the given subtrees (over-approximation)"""
             written, written_mem = set(), set()
 
-            def mark(n):
+            def mark(n, depth=0):
+                # the written object is the root of the designator: subscripts / arguments of element accessors are only read
+                k = (n or {}).get("k")
+                if n is None or depth > 40:
+                    return
+                if k == "ref":
+                    if n.get("d") is not None:
+                        written.add(n["d"])
+                    return
+                if k == "mem":
+                    written_mem.add(n.get("n"))
+                    for c_ in n.get("c", ())[:1]:
+                        mark(c_, depth + 1)
+                    return
+                if k in ("cast", "paren", "idx") or (k == "un" and n.get("op") == "*") or \
+                        (k == "call" and (n.get("ck") == "mem" or (n.get("ck") == "op" and n.get("op") in ("()", "[]", "*", "->")))):
+                    cs = n.get("c", ())
+                    if cs:
+                        mark(cs[0], depth + 1)
+                    return
                 for y in walk(n):
                     if y.get("k") == "ref" and y.get("d") is not None:
                         written.add(y["d"])
